@@ -907,7 +907,11 @@ class EventSource(object):
         When done parsing, `.parser` is None and `.ended` is True.
         """
         if self.parser:
-            result = next(self.parser)
+            try:
+                result = next(self.parser)
+            except Exception:  # generator that raised is finished so drop it
+                self.parser = None
+                raise
             if result is not None:
                 self.parser.close()
                 self.parser = None
